@@ -157,6 +157,36 @@ func replayC11(raw json.RawMessage) (string, error) {
 	if err != nil {
 		return "", err
 	}
+	if c.Op == "dump" {
+		// EaDump(addr, addr+40) against single reads
+		c11Fill(s, 0)
+		const sentinel = 0xE7
+		buf := make([]byte, 64)
+		for i := range buf {
+			buf[i] = sentinel
+		}
+		st, en := c.Addr, c.Addr+40
+		var n int
+		var pn interface{}
+		func() {
+			defer func() { pn = recover() }()
+			n = s.Bus.EaDump(st, en, buf)
+		}()
+		if pn != nil || n != 41 {
+			return fmt.Sprintf("EaDump($%06x,$%06x) returned %d (panic %v), want 41", st, en, n, pn), fmt.Errorf("unexplained:block-read")
+		}
+		for i := 0; i < 41; i++ {
+			v, p := c11Read(s, st+uint32(i))
+			want := byte(sentinel)
+			if !p {
+				want = v
+			}
+			if buf[i] != want {
+				return fmt.Sprintf("EaDump($%06x,$%06x): position %d (address $%06x) holds $%02x, a single read gives $%02x (unattached: %v)", st, en, i, st+uint32(i), buf[i], want, p), fmt.Errorf("unexplained:block-read")
+			}
+		}
+		return "the block read equals the single reads", nil
+	}
 	if c.Op == "read" {
 		var id uint32
 		for k := uint(0); k < 4; k++ {
@@ -250,6 +280,63 @@ func runC11(r *report.Run) {
 		t := tgt{mc, mo}
 		layers[t] = append(layers[t], a)
 	}
+	// ---- block reads (EaDump) across every seam of the map: same bytes as the single reads, holes untouched
+	var seams, dumps int64
+	if ds, err := c11NewSystem(); err == nil {
+		c11Fill(ds, 0)
+		kind := func(a uint32) uint32 {
+			if unatt[a] {
+				return 0xFF
+			}
+			return ids[a] >> 28
+		}
+		const sentinel = 0xE7
+		buf := make([]byte, 64)
+		for b := uint32(1); b < 1<<24; b++ {
+			if b&0xF != 0 || kind(b) == kind(b-1) { // routing changes at 16-byte cells only
+				continue
+			}
+			seams++
+			for _, back := range []uint32{20, 8, 1} {
+				if b < back || b+20 > 0xFFFFFF {
+					continue
+				}
+				st, en := b-back, b+20
+				for i := range buf {
+					buf[i] = sentinel
+				}
+				var n int
+				var pn interface{}
+				func() {
+					defer func() { pn = recover() }()
+					n = ds.Bus.EaDump(st, en, buf)
+				}()
+				dumps++
+				bad := ""
+				if pn != nil {
+					bad = fmt.Sprintf("panicked: %v", pn)
+				} else if n != int(en-st+1) {
+					bad = fmt.Sprintf("returned %d, want %d", n, en-st+1)
+				} else {
+					for i := range buf {
+						want := byte(sentinel)
+						if x := st + uint32(i); i < n && !unatt[x] {
+							want = byte(ids[x])
+						}
+						if buf[i] != want {
+							bad = fmt.Sprintf("position %d (address $%06x) holds $%02x, a single read gives $%02x", i, st+uint32(i), buf[i], want)
+							break
+						}
+					}
+				}
+				if bad != "" {
+					r.Violation("unexplained:block-read", fmt.Sprintf("Bus.EaDump($%06x,$%06x) across the seam at $%06x: %s", st, en, b, bad), c11Case{"dump", st})
+				}
+			}
+		}
+	}
+	r.Set("map_seams", seams)
+	r.Set("block_reads_across_seams", dumps)
 	// ---- writes, by mirror layer
 	s, err := c11NewSystem()
 	if err != nil {
@@ -319,7 +406,7 @@ func runC11(r *report.Run) {
 	r.Set("by_class", perClass)
 	r.Set("mirror_layers", int64(maxLayer))
 	r.Set("writes_executed", writes)
-	r.Set("rule", "reads: all 2^24 bus addresses x 4 passes (byte k of a unique location id planted in every ROM/SRAM/WRAM array cell) identify exactly which cell backs each address; writes: addresses grouped into mirror layers (j-th alias of each cell), each layer written ascending/descending with two complementary value patterns and all three arrays compared in full with the prediction after each run; non-trivial = address that both the emulator backs with an array cell and the LoROM mapper translates")
+	r.Set("rule", "block reads: Bus.EaDump from 20, 8 and 1 bytes before every seam of the map (attached/unattached or another array) to 20 bytes after it must equal the single reads and leave holes untouched; reads: all 2^24 bus addresses x 4 passes (byte k of a unique location id planted in every ROM/SRAM/WRAM array cell) identify exactly which cell backs each address; writes: addresses grouped into mirror layers (j-th alias of each cell), each layer written ascending/descending with two complementary value patterns and all three arrays compared in full with the prediction after each run; non-trivial = address that both the emulator backs with an array cell and the LoROM mapper translates")
 	r.Set("exhaustive", true)
 	r.Sample(c11Case{"read", 0x808000})
 	r.Sample(c11Case{"write", 0x001FFF})
